@@ -585,9 +585,19 @@ def r9(ctx, R):
                             names = {x.id for x in attrs_calls if isinstance(x, ast.Name)}
                             # follow locals one level
                             exprs = [v] + [dv for nm in names for _, dv in defs_of(ctx, h, nm) if dv is not None]
+                            def rel(a_, d_=0):
+                                """the receiver, something hanging off it, or a local bound to such a value"""
+                                if isinstance(a_, ast.Name) and a_.id == me:
+                                    return True
+                                if isinstance(a_, ast.Attribute):
+                                    return rel(a_.value, d_)
+                                if isinstance(a_, ast.Name) and d_ < 3:
+                                    return any(dv is not None and rel(dv, d_ + 1) for _, dv in defs_of(ctx, h, a_.id))
+                                return False
+
                             for e_ in exprs:
                                 for c_ in ast.walk(e_):
-                                    if isinstance(c_, ast.Call) and any(isinstance(a_, ast.Name) and a_.id == me or (isinstance(a_, ast.Attribute) and isinstance(a_.value, ast.Name) and a_.value.id == me) for a_ in c_.args):
+                                    if isinstance(c_, ast.Call) and any(rel(a_) for a_ in c_.args):
                                         return True
                                     if isinstance(c_, ast.Call) and isinstance(c_.func, ast.Attribute) and isinstance(c_.func.value, ast.Name) and c_.func.value.id == me and not c_.func.attr.startswith("get_"):
                                         return True
@@ -862,3 +872,7 @@ def run(ctx, R):
     r9(ctx, R)
     r10(ctx, R)
     r11(ctx, R)
+    # R12 (shared with C05.R6): the "type not imported" diagnostic depends on looking the type name up in the right name space
+    from .c05 import r6 as _type_name_lookup
+
+    _type_name_lookup(ctx, R, rule="C07.R12")
